@@ -255,6 +255,16 @@ class Case:
         r = self.r
         ops = []
         n = r.choice([0, 0, 1, 1, 2, 3, 4]) if r.random() < self.p.get("cb_ops", 0.6) else 0
+        if k in self.inserted and r.random() < self.p.get("reuse_in_cb", 0.12):
+            # the source removes itself and the same callback inserts another source, which takes over the slot
+            ops.append("remove %d" % k)
+            self.inserted.discard(k)
+            self.enabled.discard(k)
+            self.removed.add(k)
+            nk, lines = self.new_source()
+            ops += lines
+            ops.append(self.insert_line(nk))
+            self.count("cbop:reuse_slot")
         for _ in range(n):
             x = r.random()
             op = None
